@@ -93,6 +93,13 @@ theorem C08_removeAt_core {T : Tables} {b : Board} (hc : Core T b) (s : Sq) :
 
 example : Core codeTables depStart := depStart_core
 
+/-- the hypothesis is needed: on a board whose `combined` misses a pawn bit (a2 = 8), `piece_on` reports
+nothing, nothing is removed, and "setting" a white pawn there toggles the stray bit off: the result shows a
+white *king* on a2 -/
+theorem C08_setPiece_needs_core :
+    (Board.setPiece codeTables { Board.blank with pawns := BB.ofSq 8 } .pawn .white 8).map
+      (fun b => (b.pieceOn 8, b.colorOn 8)) = some (some .king, some .white) := by decide +kernel
+
 /-! ### 2. the position denoted -/
 
 /-- the position after an accepted `set_piece`: `(p, c)` on `s`, every other square, the side to move, the
@@ -308,13 +315,13 @@ theorem C03_clearSquare_good' {T : Tables} {b b' : Board} {s : Sq} (hc : Core T 
     (h : b.clearSquare T s = some b') (hv : Valid (b.abs.put s none) = true) : b'.Good T :=
   C03_clearSquare_good hc h (by rw [C08_clearSquare_abs_eq hc h]; exact hv)
 
-/-- initial position with a white knight added on e4: valid, so the result is `Good` and, for instance, its
-cached checkers are the specification's -/
-example : ∃ b', Core codeTables depStart ∧ depStart.setPiece codeTables .knight .white 28 = some b' ∧
+/-- initial position with the e2 pawn replaced by a white knight: valid, so the result is `Good` and, for
+instance, its cached checkers are the specification's -/
+example : ∃ b', Core codeTables depStart ∧ depStart.setPiece codeTables .knight .white 12 = some b' ∧
     Valid b'.abs = true ∧ b'.Good codeTables ∧ (b'.checkers = 0#64 ↔ inCheck b'.abs b'.stm = false) := by
-  have h : (depStart.setPiece codeTables .knight .white 28).isSome = true := by decide +kernel
+  have h : (depStart.setPiece codeTables .knight .white 12).isSome = true := by decide +kernel
   obtain ⟨b', hb⟩ := Option.isSome_iff_exists.mp h
-  have hv : Valid (depStart.abs.put 28 (some (.knight, .white))) = true := by decide +kernel
+  have hv : Valid (depStart.abs.put 12 (some (.knight, .white))) = true := by decide +kernel
   have hg := C03_setPiece_good' depStart_core hb hv
   exact ⟨b', depStart_core, hb, hg.2.2, hg, Board.Good.checkers_zero_iff codeTables_ok hg⟩
 
